@@ -74,7 +74,7 @@ def main(argv: list[str]) -> int:
             if d.is_dir() and (d / "patch.diff").exists()]
     ver: dict[tuple[str, str], dict] = {}
     if do_verify:
-        with ThreadPoolExecutor(max_workers=4) as ex:
+        with ThreadPoolExecutor(max_workers=3) as ex:
             for (pid, k), res in zip(jobs, ex.map(lambda j: verify(src, *j), jobs)):
                 ver[(pid, k)] = res
     for pid, k in jobs:
@@ -95,6 +95,9 @@ def main(argv: list[str]) -> int:
         shutil.copy(d / "patch.diff", dest / "patch.diff")
         shutil.copy(d / "demo.py", dest / "demo.py")
         meta = json.loads((d / "meta.json").read_text())
+        prev = None
+        if (dest / "meta.json").exists():
+            prev = json.loads((dest / "meta.json").read_text()).get("confirmed_by_main")
         head = sh("git -C /repo log --format=%h -1").stdout.strip()
         meta["confirmed_by_main"] = {
             "repo_head": head,
@@ -104,6 +107,8 @@ def main(argv: list[str]) -> int:
             "suite_with_change": v.get("suite"), "demo_exit_with_change": v.get("demo_with"),
             "demo_exit_without_change": v.get("demo_without"),
         }
+        if not do_verify and prev:
+            meta["confirmed_by_main"] = prev
         meta["check_result"] = {"status": status, "rules_fired": chk.get("rules"),
                                 "first_lines": chk.get("violation_lines", [])[:3],
                                 "analysis_error": chk.get("analysis_error")}
